@@ -334,3 +334,136 @@ Section FormattedDet.
     end.
   Definition formatted_det : prov := {| St := St P; init := init P; step := fdet_step |}.
 End FormattedDet.
+
+(* ---------- component/storageutil/formattedstore with NON-deterministic (random) key formatting ---------- *)
+(* Every Format call of such a formatter draws a random formatted key; the i-th draw that is USED as a storage key is
+   [fresh i] (a fresh-name oracle: the draws that are thrown away -- tag-only Format calls, the overwrite path -- do
+   not matter).  The unformatted key is found again through the internal tag Key:base64(key) that formattedstore adds
+   to every entry; Deformat gives back the key the entry was formatted with (base64 example formatter: its keyMap;
+   EDV formatter: embedded in the encrypted document) -- after fix 8f3c855 that is always the key of the Key tag. *)
+Definition KEYN : N := 500.                       (* the tag name "Key" *)
+Definition kenc (k : key) : N := k + 1000.        (* base64 of the key *)
+Definition kdec (x : N) : N := x - 1000.
+Definition keytag (k : key) : tag := (KEYN, kenc k).
+Definition fresh (n : N) : key := 2000 + n.
+Definition is_keyname (x : tag) : bool := N.eqb (fst x) KEYN.
+Definition key_of_tags (t : list tag) : key := match find is_keyname t with Some x => kdec (snd x) | None => 0 end.
+Definition drop_keytag (k : key) (t : list tag) : list tag :=
+  filter (fun x => negb (N.eqb (fst x) KEYN && N.eqb (snd x) (kenc k))) t.
+
+Inductive found := FErr | FNone | FOne (f : key) (e : entry).
+
+Section FormattedRand.
+  Variable fix12 : bool.    (* true: a batch that formats to no operation returns nil (fix fbdabd1); false: as found *)
+  Variable F : formatter.
+  Variable P : prov.
+  Definition rstate := (St P * N)%type.
+  Definition kcrit (k : key) : crit := (fn F KEYN, ft F (kenc k)).
+  Definition rfmt_tags (k : key) (t : list tag) : list tag := map (fmt_tag F) (t ++ [keytag k]).
+  Definition runfmt_entry (ke : key * entry) : key * entry :=
+    let t := map (unfmt_tag F) (snd (snd ke)) in
+    let k := key_of_tags t in (k, (uv F (fst (snd ke)), drop_keytag k t)).
+  (* queryUsingKeyTag + at most one result *)
+  Definition rfind (m : St P) (k : key) : St P * found :=
+    let '(m1, r) := step P m (Query [kcrit k]) in
+    (m1, match r with OQuery [] => FNone | OQuery [x] => FOne (fst x) (snd x) | _ => FErr end).
+  Fixpoint rbulk (m : St P) (ks : list key) : St P * option (list val) :=
+    match ks with
+    | [] => (m, Some [])
+    | k :: r =>
+        let '(m1, x) := rfind m k in
+        match x with
+        | FErr => (m1, None)
+        | FNone => let '(m2, y) := rbulk m1 r in (m2, option_map (cons 0) y)
+        | FOne _ e => let '(m2, y) := rbulk m1 r in (m2, option_map (cons (uv F (fst e))) y)
+        end
+    end.
+  Fixpoint res_lookup (res : list (key * key)) (k : key) : option key :=
+    match res with [] => None | (k', f) :: r => if N.eqb k k' then Some f else res_lookup r k end.
+  (* generateFormattedOperationsUsingNonDeterministicKeys: [res] = resolvedKeys (0 = marked for deletion);
+     every store query sees the state BEFORE the batch *)
+  Fixpoint rbatch (m : St P) (n : N) (res : list (key * key)) (b : list bop) : St P * N * option (list bop) :=
+    match b with
+    | [] => (m, n, Some [])
+    | (k, v, t) :: rest =>
+        let '(m1, fo) :=
+          match res_lookup res k with
+          | Some f => (m, Some f)
+          | None => let '(m1, x) := rfind m k in
+                    (m1, match x with FNone => Some 0 | FOne f _ => Some f | FErr => None end)
+          end in
+        match fo with
+        | None => (m1, n, None)
+        | Some f =>
+            if N.eqb v 0 then
+              if N.eqb f 0 then rbatch m1 n res rest
+              else let '(m2, n2, y) := rbatch m1 n ((k, 0) :: res) rest in (m2, n2, option_map (cons (f, 0, [])) y)
+            else
+              let f' := if N.eqb f 0 then fresh n else f in
+              let n' := if N.eqb f 0 then n + 1 else n in
+              let '(m2, n2, y) := rbatch m1 n' ((k, f') :: res) rest in
+              (m2, n2, option_map (cons (f', fv F v, rfmt_tags k t)) y)
+        end
+    end.
+  Definition frand_step (s : rstate) (o : op) : rstate * out :=
+    let '(m, n) := s in
+    match o with
+    | Put k v t =>
+        if valid_put k v t then
+          let '(m1, x) := rfind m k in
+          match x with
+          | FErr => ((m1, n), OErr)
+          | FNone => let '(m2, r) := step P m1 (Put (fresh n) (fv F v) (rfmt_tags k t)) in
+                     ((m2, n + 1), if is_done r then ODone else err_of r)
+          | FOne f _ => let '(m2, r) := step P m1 (Put f (fv F v) (rfmt_tags k t)) in
+                        ((m2, n), if is_done r then ODone else err_of r)
+          end
+        else (s, OErr)
+    | Get k =>
+        if N.eqb k 0 then (s, OErr) else
+        let '(m1, x) := rfind m k in
+        ((m1, n), match x with FErr => OErr | FNone => ONotFound | FOne _ e => OVal (uv F (fst e)) end)
+    | GetTags k =>
+        if N.eqb k 0 then (s, OErr) else
+        let '(m1, x) := rfind m k in
+        ((m1, n), match x with
+                  | FErr => OErr | FNone => ONotFound
+                  | FOne f e => OTags (drop_keytag k (snd (snd (runfmt_entry (f, e)))))
+                  end)
+    | GetBulk ks =>
+        if is_nil ks || has_empty_key ks then (s, OErr) else
+        let '(m1, y) := rbulk m ks in ((m1, n), match y with Some vs => OBulk vs | None => OErr end)
+    | Query q =>
+        let q' := match q with
+                  | [c] => Some [fcrit F c]
+                  | _ => if Nat.leb 2 (length (filter (fun c => negb (N.eqb (snd c) 0)) q)) then None
+                         else Some (if conj_pass F then q else [(odd_name, 0)])
+                  end in
+        match q' with
+        | None => (s, OErr)
+        | Some uq =>
+            if is_nil q then (s, OErr) else
+            let '(m1, r) := step P m (Query uq) in
+            ((m1, n), match r with OQuery l => OQuery (map runfmt_entry l) | _ => err_of r end)
+        end
+    | Delete k =>
+        if N.eqb k 0 then (s, OErr) else
+        let '(m1, x) := rfind m k in
+        match x with
+        | FErr => ((m1, n), OErr)
+        | FNone => ((m1, n), ODone)
+        | FOne f _ => let '(m2, r) := step P m1 (Delete f) in ((m2, n), if is_done r then ODone else err_of r)
+        end
+    | Batch b =>
+        if has_empty_key (map bop_key b) then (s, OErr) else
+        let '(m1, n1, y) := rbatch m n [] b in
+        match y with
+        | None => ((m1, n1), OErr)
+        | Some eo =>
+            if fix12 && negb (is_nil b) && is_nil eo then ((m1, n1), ODone)
+            else let '(m2, r) := step P m1 (Batch eo) in ((m2, n1), if is_done r then ODone else err_of r)
+        end
+    | Flush | Reopen => let '(m1, r) := step P m o in ((m1, n), if is_done r then ODone else err_of r)
+    end.
+  Definition formatted_rand : prov := {| St := rstate; init := (init P, 0); step := frand_step |}.
+End FormattedRand.
